@@ -880,8 +880,15 @@ class UnionByTypeMethod(DeserializationMethod):
             assert error is not None
             raise error
         except ValidationError as err:
-            other_classes = (cls for cls in self.method_by_cls if cls is not type(data))
-            raise merge_errors(err, bad_type(data, *other_classes))
+            # another alternative may still accept the data (an integer for float)
+            error = err
+            for cls, other in self.method_by_cls.items():
+                if cls is not type(data):
+                    try:
+                        return other.deserialize(data)
+                    except ValidationError as other_err:
+                        error = merge_errors(error, other_err)
+            raise error
 
 
 @dataclass
